@@ -395,7 +395,7 @@ fn point_case(ctx: &mut Ctx, wl: &str, case: u64, rng: &mut Rng) {
         let v: Vec<f64> = (0..n).map(|i| rng.normal() * zref[i]).collect();
         if let Some(eta) = obj.higher_correction(&ds, &v) {
             if let Some(u) = solve(n, &h, &ds) {
-                let t = dz.third_contract(&u, &v);
+                let t = dz.third_contract_scaled(&u, &v, &zref);
                 let want: Vec<f64> = t.iter().map(|x| 0.5 * x).collect();
                 let e = (0..n).fold(0.0f64, |m, i| m.max(((eta[i] - want[i]) * zref[i]).abs()));
                 let sc = (0..n).fold(0.0f64, |m, i| m.max((want[i] * zref[i]).abs())).max(1e-300);
